@@ -65,8 +65,8 @@ fn c18_arena_iter_2() {
 
 #[kani::proof]
 #[kani::unwind(12)]
-fn c18_arena_iter_5() {
-    arena_iter_case::<5>();
+fn c18_arena_iter_3() {
+    arena_iter_case::<3>();
 }
 
 // ---- generated arena instances are appended by the check -----------------------------------------
@@ -85,56 +85,6 @@ fn c18_arena_index_out_of_range_panics() {
     let j: usize = kani::any();
     kani::assume(j >= 5 && j < 16);
     let _ = a[SolvableId::from_usize(j)];
-}
-
-fn mut_access<const X: usize, const Y: usize>() {
-    let mut a: Arena<SolvableId, u32> = Arena::new();
-    let mut vals = [0u32; 6];
-    let mut i = 0;
-    while i < 6 {
-        vals[i] = kani::any();
-        a.alloc(vals[i]);
-        i += 1;
-    }
-    {
-        let (rx, ry) = a.get_two_mut(SolvableId::from_usize(X), SolvableId::from_usize(Y));
-        assert!(*rx == vals[X] && *ry == vals[Y], "get_two_mut returns the two requested elements");
-        let nv: u32 = kani::any();
-        *rx = nv;
-        vals[X] = nv;
-    }
-    a[SolvableId::from_usize(Y)] = vals[Y].wrapping_add(1);
-    vals[Y] = vals[Y].wrapping_add(1);
-    let mut j = 0;
-    while j < 6 {
-        assert!(a[SolvableId::from_usize(j)] == vals[j], "writes land in exactly the addressed element");
-        j += 1;
-    }
-    // iter_mut visits every element once, in order
-    let mut it = a.iter_mut();
-    let mut j = 0;
-    while j < 6 {
-        match it.next() {
-            Some((id, v)) => assert!(id.to_usize() == j && *v == vals[j]),
-            None => assert!(false, "iter_mut ended early"),
-        }
-        j += 1;
-    }
-    assert!(it.next().is_none());
-    kani::cover!(vals[X] == vals[Y], "equal values in both slots");
-    std::mem::forget(a);
-}
-
-#[kani::proof]
-#[kani::unwind(12)]
-fn c18_arena_mut_same_chunk() {
-    mut_access::<0, 3>();
-}
-
-#[kani::proof]
-#[kani::unwind(12)]
-fn c18_arena_mut_across_chunks() {
-    mut_access::<5, 2>();
 }
 
 #[kani::proof]
